@@ -59,7 +59,7 @@ def run(tier, only=None):
 
     def ujob(u):
         return te.unit(u[0], u[1], defs=u[2], replace=u[3], unwind=u[5], checks="full", timeout=u[6],
-                       hunt={"cap": 6, "timeout": 300, "keep": ("asm_build_index_tables",)} if u[4] == "leaf" else None,
+                       hunt={"cap": 6, "timeout": 60, "keep": ("asm_build_index_tables",)} if u[4] == "leaf" else None,
                        replay_fn=leaf_replay(None) if u[4] == "leaf" else None,
                        unwindset={"strstr.0": 110, "strstr.1": 110, "strlen.0": 110, "strchr.0": 110, "strtok_r.0": 110, "strtok_r.1": 110,
                                   "find_reg.0": te.tb["reg_rows"] + 2, "strcmp.0": 12, "vf_model_strtoul.0": 30, "vf_model_strtoul.1": 30,
